@@ -15,7 +15,7 @@ let b01 b = if b then "1" else "0"
 let do_registry toks =
   let st = ref Registry.coq_NewModules in
   let prev = ref [] in                      (* headers handed to add so far, in order *)
-  let vs = ref [] and fs = ref [] and sv = ref [] and d30 = ref [] and sf = ref [] in
+  let vs = ref [] and fs = ref [] and sv = ref [] and sf = ref [] in
   let names_ok = ref true in
   L.iteri (fun i op ->
     match split ':' op with
@@ -30,7 +30,6 @@ let do_registry toks =
         st := st';
         vs := b01 ok :: !vs;
         sv := b01 (C13.spec_ok !prev h) :: !sv;
-        d30 := b01 (C13.d30_shape !prev h) :: !d30;
         prev := !prev @ [h]
       end else begin
         let rev = if r = "n" then None else Some (c13_rev (Str_.sub r 1 (Str_.length r - 1))) in
@@ -42,10 +41,10 @@ let do_registry toks =
     let l = L.map (fun (k, h) -> (hex_of_bytes k, string_of_int (int_of_n h.Registry.h_id))) m in
     let l = L.sort compare l in
     join "," (L.map (fun (k, v) -> k ^ ":" ^ v) l) in
-  Printf.sprintf "v=%s f=%s M=%s S=%s | names_ok=%s sv=%s d30=%s sf=%s"
+  Printf.sprintf "v=%s f=%s M=%s S=%s | names_ok=%s sv=%s sf=%s"
     (join "" (L.rev !vs)) (join "," (L.rev !fs))
     (dump !st.Registry.coq_Modules) (dump !st.Registry.coq_SubModules)
-    (b01 !names_ok) (join "" (L.rev !sv)) (join "" (L.rev !d30)) (join "," (L.rev !sf))
+    (b01 !names_ok) (join "" (L.rev !sv)) (join "," (L.rev !sf))
 
 (* tree: (<entry>,...)  entry = F<hex> | D<hex>(<entry>,...) *)
 let parse_tree s =
